@@ -216,7 +216,7 @@ func (ck *c06Checker) violation(c c06Case, out RunResult, key, what string) {
 }
 
 // check applies (a)-(d) to one finished run. accAnswer is the oracle's answer to the acc request.
-func (ck *c06Checker) check(c c06Case, out RunResult, accAnswer string) {
+func (ck *c06Checker) check(c c06Case, out RunResult, accAnswer string, afterRoot string) {
 	res := ck.res
 	g := "0"
 	if c.Gcc {
@@ -339,6 +339,14 @@ func (ck *c06Checker) check(c c06Case, out RunResult, accAnswer string) {
 			continue
 		}
 		nlines, _ := c06CountLines(full)
+		if c.FixF && afterRoot != "" {
+			// -F rewrites files while it runs and may load and fix a file again: a line number
+			// refers to the file as it was at that moment, which lies between "before" and "after"
+			if n2, ok := c06CountLines(filepath.Join(afterRoot, c.Cwd, rel)); ok && n2 > nlines {
+				nlines = n2
+				res.Count("diag.lineno.F-file-grew", 1)
+			}
+		}
 		if !(1 <= l.n && l.n <= l.m && l.m <= nlines) {
 			ck.violation(c, out, "C06/lineno-out-of-range/"+c07Norm(l.msg), fmt.Sprintf("line %q: %d--%d is not within 1..%d (physical lines of %q)", trunc(raw, 200), l.n, l.m, nlines, rel))
 		} else if l.lnKind == "range" {
@@ -437,22 +445,30 @@ func imax0(i int) int {
 	return i
 }
 
-func c06Run(ctx *Ctx, c c06Case, tag string) RunResult {
+// c06Run runs the case; for -F it runs on a copy, whose root is returned (the caller removes it).
+func c06Run(ctx *Ctx, c c06Case, tag string) (RunResult, string) {
 	root := c.Root
 	if c.FixF {
 		root = c.Root + ".F." + tag
 		os.RemoveAll(root)
 		if err := CopyTree(c.Root, root); err != nil {
-			return RunResult{Stderr: "copy failed: " + err.Error(), Exit: -2}
+			return RunResult{Stderr: "copy failed: " + err.Error(), Exit: -2}, ""
 		}
-		defer os.RemoveAll(root)
 	}
-	return RunPkglint(ctx, filepath.Join(root, c.Cwd), 60*time.Second, c.Args...)
+	return RunPkglint(ctx, filepath.Join(root, c.Cwd), 60*time.Second, c.Args...), root
 }
 
 func (ck *c06Checker) runAndCheck(cases []c06Case) {
 	outs := make([]RunResult, len(cases))
-	parallelFor(len(cases), func(i int) { outs[i] = c06Run(ck.ctx, cases[i], fmt.Sprint(i)) })
+	after := make([]string, len(cases)) // root of the tree after the run (differs from Root only for -F)
+	parallelFor(len(cases), func(i int) { outs[i], after[i] = c06Run(ck.ctx, cases[i], fmt.Sprint(i)) })
+	defer func() {
+		for i, a := range after {
+			if a != "" && a != cases[i].Root {
+				os.RemoveAll(a)
+			}
+		}
+	}()
 	if err := ck.classifyAll(cases, outs); err != nil {
 		ck.res.Broken = err.Error()
 		return
@@ -467,7 +483,7 @@ func (ck *c06Checker) runAndCheck(cases []c06Case) {
 		return
 	}
 	for i := range cases {
-		ck.check(cases[i], outs[i], ans[i])
+		ck.check(cases[i], outs[i], ans[i], after[i])
 		ck.res.Evaluations++
 	}
 }
@@ -513,7 +529,7 @@ func c06SpecSelfTest(ctx *Ctx, res *Result) {
 
 func runC06run(ctx *Ctx) *Result {
 	res := &Result{}
-	ntrees, perTree := 150, 8
+	ntrees, perTree := 250, 8
 	if ctx.Tier == "thorough" {
 		ntrees, perTree = 1200, 10
 	}
@@ -560,7 +576,7 @@ func runC06run(ctx *Ctx) *Result {
 		}
 	}
 	res.Assumptions = []string{"file names contain no '<' (the un-escaping of <U+XXXX>/<0xNN> is then unambiguous), no ':' and no newline",
-		"-F runs on a copy of the tree; line numbers of AUTOFIX lines are checked against the files before the fix"}
+		"-F runs on a copy of the tree; a line number printed under -F is accepted when it lies within the file before OR after the run (a file can be fixed, saved, loaded again and fixed again in one run)"}
 	return res
 }
 
